@@ -677,6 +677,11 @@ Section Sim.
   Lemma oldschool_table : oldschool_names = [p_staticmethod; p_classmethod].
   Proof. reflexivity. Qed.
 
+  (* the kinds the probed method sets are the ones Model.Builder.oldschool hard-codes: staticmethod -> STATIC_METHOD (3),
+     classmethod -> CLASS_METHOD (2) *)
+  Lemma oldschool_kinds_table : oldschool_kinds = [(p_staticmethod, 3%N); (p_classmethod, 2%N)].
+  Proof. reflexivity. Qed.
+
   (* the right-hand side does not make the builder take the alias or the old-style decoration path *)
   Definition plain_expr (expr : option rhs) : Prop :=
     match expr with
